@@ -764,3 +764,76 @@ func absentCheckKeyAgreement(r *core.Run, rule string, hs []*core.Handler) int {
 	}
 	return nAbs
 }
+
+// iteratorHygiene: ranged store iterators in funcs. Keys in this code base are text: a bound built from a
+// variable-width decimal does not delimit a numeric range (byte order: "1000" < "900"), and an open-ended range whose
+// iterator is only asked Valid() is not a test for "some key with this prefix exists" (any later key satisfies it).
+func iteratorHygiene(r *core.Run, rule string, funcs []*ssa.Function) {
+	p := r.Prog
+	n := 0
+	for _, fn := range funcs {
+		allInstrs(fn, func(in ssa.Instruction) {
+			c, ok := in.(*ssa.Call)
+			if !ok {
+				return
+			}
+			name := core.CalleeFullName(c)
+			if !(strings.HasSuffix(name, ").Iterator") || strings.HasSuffix(name, ").ReverseIterator")) {
+				return
+			}
+			args := c.Call.Args
+			if !c.Call.IsInvoke() && len(args) == 3 {
+				args = args[1:] // receiver first
+			}
+			if len(args) != 2 {
+				return
+			}
+			n++
+			r.Analysed(core.FnName(fn))
+			isNil := func(v ssa.Value) bool {
+				k, ok := v.(*ssa.Const)
+				return ok && k.Value == nil
+			}
+			s, e := args[0], args[1]
+			construct := core.FnName(fn) + ":ranged-iterator"
+			if isNil(s) && isNil(e) {
+				r.Trivial(rule, construct, p.InstrPos(c), "full iteration of the (prefix) store")
+				return
+			}
+			tb := core.NewTermBuilder(p)
+			for _, b := range []ssa.Value{s, e} {
+				if !isNil(b) && strings.Contains(tb.Term(b), "dec(") {
+					r.Violation(rule, construct, p.InstrPos(c), "a range bound is built from a variable-width decimal ("+tb.Term(b)+"): keys sort as text, so the range is not the numeric range it looks like (\"…1000\" sorts before \"…900\") — records outside the intended range are visited/deleted and records inside it are skipped")
+					return
+				}
+			}
+			if isNil(s) != isNil(e) {
+				onlyValid := true
+				if c.Referrers() != nil {
+					for _, ref := range *c.Referrers() {
+						rc, isCall := ref.(ssa.CallInstruction)
+						if isCall {
+							rn := core.CalleeFullName(rc)
+							if strings.HasSuffix(rn, ").Valid") || strings.HasSuffix(rn, ").Close") {
+								continue
+							}
+						}
+						if _, isDbg := ref.(*ssa.DebugRef); isDbg {
+							continue
+						}
+						if _, isDefer := ref.(*ssa.Defer); isDefer {
+							continue
+						}
+						onlyValid = false
+					}
+				}
+				if onlyValid {
+					r.Violation(rule, construct, p.InstrPos(c), "an open-ended range is used as an existence test (the iterator is only asked Valid()): it is true whenever ANY later key exists, not only keys with the intended prefix")
+					return
+				}
+			}
+			r.Ok(rule, construct, p.InstrPos(c), "ranged iteration with text-safe bounds")
+		})
+	}
+	r.Ok(rule, "iterator-census", "", fmt.Sprintf("%d raw Iterator/ReverseIterator call sites examined in %d functions", n, len(funcs)))
+}
